@@ -110,7 +110,7 @@ def proofs(ctx):
     if not os.path.exists(os.path.join(C.COQ, vf)):
         res.update(ok=False, log='no theorem file ' + vf)
         return res
-    targets = [vf + 'o']
+    targets = [vf + 'o', 'gen/Hash_vectors.vo']
     if os.path.exists(os.path.join(C.COQ, 'Pins.v')):
         targets.append('Pins.vo')
     t0 = time.time()
@@ -357,3 +357,192 @@ def scen_C01(ctx):
 
 
 SCENARIOS['C01'] = scen_C01
+
+
+# ------------------------------------------------------------------ generic line-diff of two tools
+def tool_diff(ctx, scen, impl_cmd, model_cmd, normalize=None, oracle_lines=None, sample=None):
+    """runs a harness command and the corresponding driver command, compares line by line.
+    returns (ok, first_difference_text, n_lines). BAD lines printed by the harness are the direct oracle."""
+    ri = C.sh(impl_cmd, timeout=3000)
+    rm = C.sh(model_cmd, timeout=3000)
+    il = [l for l in ri.stdout.split('\n') if l]
+    ml = [l for l in rm.stdout.split('\n') if l]
+    bad = [l for l in il if l.startswith('BAD')]
+    il2 = [l for l in il if not l.startswith(('BAD', 'end '))]
+    if normalize:
+        il2 = [normalize(l) for l in il2]
+    ctx.evaluations += len(il2)
+    ctx.scen_counts[scen] = ctx.scen_counts.get(scen, 0) + len(il2)
+    for l in il2[:60000]:
+        ctx.distinct.add(l)
+    if sample and len(ctx.samples) < 6:
+        ctx.samples.append({'scenario': scen, 'lines': il2[:3] + il2[-2:]})
+    diff = None
+    if ri.returncode != 0:
+        diff = 'harness command failed: ' + (ri.stderr or ri.stdout)[-400:]
+    elif rm.returncode != 0:
+        diff = 'model command failed: ' + (rm.stderr or rm.stdout)[-400:]
+    else:
+        for i in range(max(len(il2), len(ml))):
+            a = il2[i] if i < len(il2) else 'MISSING'
+            b = ml[i] if i < len(ml) else 'MISSING'
+            if a != b:
+                diff = 'line %d: implementation `%s` / model `%s`' % (i, a[:200], b[:200])
+                break
+    end = [l for l in il if l.startswith('end ')]
+    return diff, bad, end
+
+
+# ------------------------------------------------------------------ C09
+def scen_C09(ctx):
+    ctx.rule = ('L_size: the crate\'s own slot-size decision (layout-probe hook) vs the model for value lengths 0..N (quick N=2^18, '
+                'thorough N=2^24, exhaustive) and key lengths 0..K (quick 1500, thorough 65536) x 35^2 offset-width representatives, '
+                'each also checked by the direct oracle "real encoded length <= slot"; L_img: sentinel sweep storing each length between '
+                'two sentinel entries and overwriting it one byte shorter/longer; distinct = distinct lines / op files')
+    nmax = ctx.scale(1 << 18, 1 << 24)
+    d = os.path.join(ctx.root, 'size')
+    os.makedirs(d, exist_ok=True)
+    diff, bad, end = tool_diff(ctx, 'sizing_val', [C.HARNESS, 'sizing-val', str(nmax)], [C.DRIVER, 'sizing-val', str(nmax)], sample=True)
+    if bad:
+        ln = int(re.search(r'len=(\d+)', bad[0]).group(1))
+        ctx.violation('value_len_%d' % ln, 'value length %d: %s\n(the record really written is longer than the slot the crate reserves)' % (ln, bad[0]),
+                      ['db d0 db', 'map m0 d0 bytes m B8', 'put m0 61 z10x1', 'put m0 62 z%dx2' % ln, 'put m0 63 z10x3', 'get m0 61', 'get m0 62', 'get m0 63', 'closeall'])
+    elif diff:
+        ctx.disagreements += 1
+        ctx.violation('sizing_val', 'L_size correspondence (value slot sizes, crate vs model Sizing.val_need/roundup) breaks: %s\n'
+                      'direct oracle (real encoded length <= slot for every length 0..%d): no failing input' % (diff, nmax), None, found=False)
+    ctx.distribution['sizing_val_end'] = {'line': end[0] if end else ''}
+    # keys
+    reps = os.path.join(d, 'reps.txt')
+    open(reps, 'w').write(C.sh([C.HARNESS, 'offset-reps'], check=True).stdout)
+    kmax = ctx.scale(1500, 65536)
+    diff, bad, end = tool_diff(ctx, 'sizing_key', [C.HARNESS, 'sizing-key-sweep', str(kmax)], [C.DRIVER, 'sizing-key-sweep', str(kmax), reps], sample=True)
+    if bad:
+        m = re.search(r'klen=(\d+) voff=(\d+) noff=(\d+)', bad[0])
+        ctx.violation('key_len_%s' % m.group(1), 'key sizing: %s\n(the key record really written is longer than the slot the crate reserves)' % bad[0], None)
+    elif diff:
+        ctx.disagreements += 1
+        ctx.violation('sizing_key', 'L_size correspondence (key slot sizes) breaks: %s\ndirect oracle: no failing input' % diff, None, found=False)
+    ctx.distribution['sizing_key_end'] = {'line': end[0] if end else ''}
+    # sentinel sweep, end to end
+    edges = sorted(set(x + dlt for x in G.VAL_EDGES for dlt in (-1, 0, 1) if x + dlt >= 0))
+    lens = edges if ctx.quick else sorted(set(list(range(0, 4201)) + [x + dlt for x in (131072 - 8, 131072, 1 << 20) for dlt in (-2, -1, 0, 1, 2)]))
+    groups = [lens[i:i + 12] for i in range(0, len(lens), 12)]
+
+    def one(a):
+        i, grp = a
+        g = G.G(ctx.seed, 'C09', i)
+        lines = ['db d0 db', 'map m0 d0 bytes m B8']
+        for L in grp:
+            k = ('k%05d' % L).encode().hex()
+            lines += ['put m0 %s z24x1' % ('a%05d' % L).encode().hex(), 'put m0 %s z%dx%d' % (k, L, L % 250), 'put m0 %s z24x2' % ('b%05d' % L).encode().hex()]
+            for L2 in (L + 1, max(L - 1, 0), L):
+                lines += ['put m0 %s z%dx%d' % (k, L2, (L2 + 7) % 250), 'get m0 %s' % k,
+                          'get m0 %s' % ('a%05d' % L).encode().hex(), 'get m0 %s' % ('b%05d' % L).encode().hex()]
+        lines += ['flush m0', 'snap db', 'closeall', 'snap db']
+        pair(ctx, 'sentinel', i, lines, files_oracle=True)
+    parallel(one, list(enumerate(groups)))
+    # key lengths end to end
+    klens = [x for x in G.KEY_EDGES] + ([] if ctx.quick else list(range(0, 1200, 7)) + [4090, 4096, 4097, 65535, 65536])
+
+    def onek(a):
+        i, grp = a
+        lines = ['db d0 db', 'map m0 d0 bytes m B2']
+        for L in grp:
+            k = 'z%dx%d' % (L, L % 200) if L > 0 else '-'
+            lines += ['put m0 %s 01' % k, 'get m0 %s' % k, 'put m0 %s z300x3' % k, 'get m0 %s' % k]
+        lines += ['iter m0 keys', 'closeall', 'snap db']
+        pair(ctx, 'keylen', i, lines, files_oracle=True)
+    parallel(onek, list(enumerate([klens[i:i + 10] for i in range(0, len(klens), 10)])))
+
+
+SCENARIOS['C09'] = scen_C09
+
+
+# ------------------------------------------------------------------ C10
+def scen_C10(ctx):
+    ctx.rule = ('L_conv: integer -> key -> integer conversions (by value and by reference), cmp_u8 and placement hashes, crate vs model, on every '
+                'power of two +-1, extremes and seeded random 64-bit values; plus the direct oracle (Python integers); '
+                'L_api: typed-map histories addressed by integers; distinct = distinct input lines / op files')
+    import random
+    rng = random.Random('%s/C10' % ctx.seed)
+    d = os.path.join(ctx.root, 'conv')
+    os.makedirs(d, exist_ok=True)
+    ints = list(G.INT_EDGES) + [rng.randrange(2 ** 64) for _ in range(ctx.scale(3000, 1000000))]
+    lines = []
+    for x in ints:
+        lines.append('u %d' % x)
+        s = x - 2 ** 63
+        lines.append('i %d' % s)
+        if x < 2 ** 63:
+            lines.append('i %d' % x)
+    # cmp_u8: prefixes, embedded NULs, non-UTF-8; vu64 on canonical encodings
+    samples = [b'', b'a', b'ab', b'a\x00', b'\x00', b'\x00\x00', b'\xff\xfe', b'abc', b'abd', b'\xc3\x28', b'ab\x00c']
+    for t in ('string', 'bytes', 'i64', 'u64'):
+        for a in samples:
+            for b in samples:
+                lines.append('c %s %s %s' % (t, G.hx(a), G.hx(b)))
+    vs = [G.vu64(x) for x in (0, 1, 127, 128, 300, 16383, 16384, 2 ** 21, 2 ** 56 - 1, 2 ** 56, 2 ** 64 - 1)]
+    for a in vs:
+        for b in vs:
+            lines.append('c vu64 %s %s' % (G.hx(a), G.hx(b)))
+    for k in samples + [bytes(rng.randrange(256) for _ in range(rng.randrange(0, 70))) for _ in range(300)]:
+        lines.append('h %s' % G.hx(k))
+    f = os.path.join(d, 'conv.txt')
+    open(f, 'w').write('\n'.join(lines) + '\n')
+
+    def norm(l):
+        if l.startswith('c '):
+            t = l.split()
+            return ' '.join(t[:4] + [{'Equal': 'eq', 'Less': 'ne', 'Greater': 'ne', 'panic': 'panic'}[t[4]]])
+        return l
+    ri = C.sh([C.HARNESS, 'conv', f], timeout=3000)
+    il = [l for l in ri.stdout.split('\n') if l]
+    # direct oracle on the implementation's own lines
+    viol = None
+    for l in il:
+        t = l.split()
+        kv = dict(x.split('=', 1) for x in t[2:] if '=' in x)
+        if t[0] == 'u':
+            x = int(t[1])
+            if not (kv['u64'] == kv['u64r'] and kv['vu64'] == kv['vu64r'] and kv['str'] == kv['strr'] and kv['bytes'] == kv['bytesr']):
+                viol = 'by-value and by-reference conversions of %d differ: %s' % (x, l); break
+            if int(kv['back']) != x or int(kv['backv']) != x or kv['vback'] != str(x) or kv['vbackv'] != str(x):
+                viol = 'integer %d does not convert back to itself: %s' % (x, l); break
+            if bytes.fromhex(kv['u64']) != x.to_bytes(8, 'little') or bytes.fromhex(kv['vu64']) != G.vu64(x):
+                viol = 'key bytes of %d are not the documented encoding: %s' % (x, l); break
+        elif t[0] == 'i':
+            x = int(t[1])
+            if kv['i64'] != kv['i64r'] or int(kv['back']) != x or int(kv['backv']) != x:
+                viol = 'i64 %d does not convert back to itself: %s' % (x, l); break
+    if viol:
+        ctx.violation('conv', viol, None)
+    diff, bad, end = tool_diff(ctx, 'conv', [C.HARNESS, 'conv', f], [C.DRIVER, 'conv', f], normalize=norm, sample=True)
+    if diff and not viol:
+        ctx.disagreements += 1
+        ctx.violation('conv_corr', 'L_conv correspondence (KeyTypes.of_u64/of_i64/of_vu64/cmp_eq, Hash.hash_value vs the crate) breaks: %s\n'
+                      'direct oracle (round trips against Python integers): no failing input' % diff, None, found=False)
+    # typed maps addressed by integers
+    def one(i):
+        g = G.G(ctx.seed, 'C10api', i)
+        kt = ['u64', 'i64', 'vu64', 'string', 'bytes'][i % 5]
+        r = g.rng
+        lines = ['db d0 db', 'map m0 d0 %s m %s' % (kt, g.params(bufs=False))]
+        universe = [r.choice(G.INT_EDGES) if r.random() < 0.8 else r.randrange(2 ** 64) for _ in range(12)]
+        for _ in range(ctx.scale(120, 600)):
+            x = r.choice(universe)
+            if kt == 'i64':
+                x = x - 2 ** 63
+            c = r.random()
+            if c < 0.45: lines.append('put@ m0 %d %s' % (x, g.value_token(0.0, 200)))
+            elif c < 0.65: lines.append('get@ m0 %d' % x)
+            elif c < 0.8: lines.append('has@ m0 %d' % x)
+            elif c < 0.95: lines.append('del@ m0 %d' % x)
+            else: lines.append('iter m0 keys')
+            g.count(lines[-1].split()[0])
+        lines += ['iter m0 iter', 'len m0', 'closeall']
+        pair(ctx, 'intkeys', i, lines, stats=g.stats)
+    parallel(one, range(ctx.scale(40, 300)))
+
+
+SCENARIOS['C10'] = scen_C10
